@@ -732,6 +732,10 @@ impl Journal {
 }
 
 static CASE_SEQ: std::sync::atomic::AtomicU64 = std::sync::atomic::AtomicU64::new(0);
+static WATCHDOG_OFF: std::sync::atomic::AtomicBool = std::sync::atomic::AtomicBool::new(false);
+pub fn stop_watchdog() {
+	WATCHDOG_OFF.store(true, std::sync::atomic::Ordering::SeqCst);
+}
 /// Per-case time limit for termination properties: if no new case is journalled for `limit_s` seconds the worker
 /// aborts; the coordinator then attributes the death to the journalled case (class "process-death"), skips it and goes on.
 pub fn start_watchdog(limit_s: u64) {
@@ -740,6 +744,9 @@ pub fn start_watchdog(limit_s: u64) {
 		let mut since = Instant::now();
 		loop {
 			std::thread::sleep(std::time::Duration::from_millis(250));
+			if WATCHDOG_OFF.load(std::sync::atomic::Ordering::SeqCst) {
+				return;
+			}
 			let now = CASE_SEQ.load(std::sync::atomic::Ordering::Relaxed);
 			if now != last {
 				last = now;
